@@ -30,6 +30,8 @@ type Prop struct {
 	Assumptions []string
 	Race        bool // deciding run uses the -race binary
 	Workers     int  // 0 = default (16)
+	// RaceSecondPass repeats a reduced case list under the -race binary (checkptr) after the main pass.
+	RaceSecondPass bool
 	// MinNontrivial is the number of non-trivial cases below which the run is inconclusive.
 	MinNontrivial int
 	// Extra, when set, contributes additional coverage keys computed by the parent.
